@@ -375,7 +375,7 @@ impl Sim {
                 } else {
                     *self.stats.ix_err.entry(tag.clone()).or_insert(0) += 1;
                     if tag.contains("withdraw_emissions,end_liquidation") && std::env::var("MFISIM_DEBUG_EMIBR").is_ok() {
-                        eprintln!("emibr failed: {:?}", out.result.as_ref().err().map(|e| (e.ix_index, e.code)));
+                        eprintln!("emibr failed: {} {:?}", tag.contains("settle"), out.result.as_ref().err().map(|e| (e.ix_index, e.code)));
                     }
                     if tag == "accrue_interest" {
                         if let Ok(v) = std::env::var("MFISIM_DEBUG_ACCRUE") {
